@@ -57,6 +57,31 @@ fn real_main() {
         start: std::time::Instant::now(),
         only_case: arg("--case").and_then(|s| s.parse().ok()),
     };
+    if cmd == "dev-prune" {
+        // development aid: simfony-verif dev-prune PROGRAM.simf WITNESS.json
+        let text = std::fs::read_to_string(&a[2]).unwrap();
+        let wit: simfony::WitnessValues = serde_json::from_str(&std::fs::read_to_string(&a[3]).unwrap()).unwrap();
+        let c = simfony::CompiledProgram::new(text.as_str(), simfony::Arguments::default(), false).unwrap();
+        let cmr = c.commit().cmr();
+        for (name, env) in [("none", None), ("dummy", Some(&cx.env))] {
+            match c.satisfy_with_env(wit.clone(), env) {
+                Ok(s) => {
+                    let (p, w) = s.redeem().encode_to_vec();
+                    let d = bridge::decode_redeem(&p, &w);
+                    let (m6, nw) = pipeline::m6_check(s.redeem(), &bridge::cmr_bytes(cmr));
+                    println!("{name}: prog {} bytes, witness {} bytes, decode {}, m6 {:?}, witness nodes {nw}, exec {}",
+                        p.len(), w.len(), d.map(|_| ()).brief(), m6, bridge::exec_redeem(s.redeem(), &cx.env).brief());
+                    pipeline::walk_redeem(s.redeem(), &mut |n| {
+                        if let simfony::simplicity::node::Inner::Witness(v) = n.inner() {
+                            println!("   witness node: type {} value {}", n.arrow().target, v);
+                        }
+                    });
+                }
+                Err(e) => println!("{name}: Err {e}"),
+            }
+        }
+        return;
+    }
     if cmd == "show" {
         // print one generated program (development aid)
         let i: u64 = arg("--case").and_then(|s| s.parse().ok()).unwrap_or(0);
@@ -70,7 +95,15 @@ fn real_main() {
     }
     match cmd.as_str() {
         "c01" => props::c01::run(&mut cx),
+        "c02" => props::c02::run(&mut cx),
+        "c05" => props::c05::run(&mut cx),
+        "c12" => props::c12::run(&mut cx),
+        "c14" => props::c14::run(&mut cx),
+        "c18" => props::c18::run(&mut cx),
         "c07" => props::c07::run(&mut cx),
+        "c08" => props::c08::run(&mut cx),
+        "c09" => props::c09::run(&mut cx),
+        "c10" => props::c10::run(&mut cx),
         "c11" => props::c11::run(&mut cx),
         "c13" => props::c13::run(&mut cx),
         "c15" => props::c15::run(&mut cx),
